@@ -351,10 +351,10 @@ def run(ctx):
         ctx.notes["vacuous_actions"] = sorted(k for k, v in r.get("coverage", {}).items() if v[1] == 0 and k[0].isupper())
 
     # ---- 2. L2 => L1 refinement
-    r2 = core.tlc_model_check(ctx, "BitsetImpl", "BitsetImpl_mc.cfg" if q else "BitsetImpl_mc_thorough.cfg",
-                              "L2 (block-level transcription) refines L1; unused bits zero")
-    if r2["violated"]:
-        ctx.drift.append("BitsetImpl.tla does not refine Bitset.tla (%s); see %s" % (r2["violated"], r2["outfile"]))
+    for cfg2 in (["BitsetImpl_mc.cfg"] if q else ["BitsetImpl_mc_thorough.cfg", "BitsetImpl_mc_thorough2.cfg"]):
+        r2 = core.tlc_model_check(ctx, "BitsetImpl", cfg2, "L2 (block-level transcription) refines L1; unused bits zero", timeout=1500)
+        if r2["violated"]:
+            ctx.drift.append("BitsetImpl.tla does not refine Bitset.tla (%s); see %s" % (r2["violated"], r2["outfile"]))
 
     # ---- build the harness from /repo's working tree
     drv = os.path.join(ctx.work, "bitset_driver")
@@ -421,7 +421,7 @@ def run(ctx):
 
     return core.finish(
         ctx, "model_checking",
-        rule="TLC: L1 exhaustive for widths {2,3}, <=4 bits, two objects; L2=>L1 refinement; every L1 transition at W=8 "
+        rule="TLC: L1 exhaustive for widths {2,3}, <=4 bits (quick) or <=5 bits (thorough), two objects; L2=>L1 refinement at the same bounds; every L1 transition at W=8 "
              "(sizes 0..%d, one target object + representative operands) replayed on the real objects; TLC simulation walks; "
              "seeded random scripts for uint8/16/32/64 with boundary sizes/shifts. A case is one call with its full observable "
              "projection compared by TLC." % (9 if q else 10),
